@@ -192,7 +192,11 @@ func (c *C) Count(name string, n int) { c.mu.Lock(); c.counters[name] += int64(n
 func (c *C) Get(name string) int64 { c.mu.Lock(); defer c.mu.Unlock(); return c.counters[name] }
 
 // Require makes the run inconclusive if the named counter is still zero at the end.
-func (c *C) Require(names ...string) { c.mu.Lock(); c.required = append(c.required, names...); c.mu.Unlock() }
+func (c *C) Require(names ...string) {
+	c.mu.Lock()
+	c.required = append(c.required, names...)
+	c.mu.Unlock()
+}
 
 // Want names coverage counters for rare race windows / patterns whose absence in ONE run is reported (evidence
 // "coverage_gaps", a COVERAGE-GAP line) but does not make the run inconclusive: whether a seed reaches such a window is a
